@@ -79,7 +79,7 @@ def thorough(prop, repo, ck, jobs=None):
     with ProcessPoolExecutor(max_workers=jobs) as ex:
         res = list(ex.map(_run_one, args, chunksize=2))
     by = {i["id"]: i for i in items}
-    detected, missed, silent_ok, false_alarm, skipped, errored = [], [], [], [], [], []
+    detected, missed, silent_ok, false_alarm, skipped, errored, undecided = [], [], [], [], [], [], []
     for iid, status, rules, errs in res:
         it = by[iid]
         benign = it.get("rule") == "SILENT" or it.get("kind") == "benign"
@@ -92,10 +92,13 @@ def thorough(prop, repo, ck, jobs=None):
                 detected.append(f"{iid}->{','.join(rules)}")
             elif errs:
                 errored.append(f"{iid}:{errs[0][:80]}")
+            elif str(it.get("rule", "")).endswith(".none") or it.get("undecided"):
+                undecided.append(iid)       # breaks a clause the design declares not decidable statically
             else:
                 missed.append(iid)
     print(f"  self-validation: {len(detected)} breaking edits reported, {len(missed)} missed, {len(errored)} analysis-error, "
-          f"{len(silent_ok)} benign silent, {len(false_alarm)} benign alarmed, {len(skipped)} not applicable to this tree")
+          f"{len(silent_ok)} benign silent, {len(false_alarm)} benign alarmed, {len(skipped)} not applicable to this tree, "
+          f"{len(undecided)} in a clause declared undecidable")
     for m in missed:
         print(f"SELFVAL-MISS property={prop} edit={m} ({by[m].get('rule')}: {by[m].get('note', '')})")
     for m in errored:
@@ -104,7 +107,7 @@ def thorough(prop, repo, ck, jobs=None):
         print(f"SELFVAL-FALSE-ALARM property={prop} edit={m}")
     return {"selfval_breaking_reported": len(detected), "selfval_breaking_missed": missed, "selfval_analysis_error": errored,
             "selfval_benign_silent": len(silent_ok), "selfval_benign_alarmed": false_alarm, "selfval_skipped": skipped,
-            "selfval_detail": detected}
+            "selfval_declared_undecided": undecided, "selfval_detail": detected}
 
 
 def main():
